@@ -1,8 +1,9 @@
-\* behaviour generation: n=7 weighted powers <<3,2,2,1,1,1,1>> (N=11, q=8, f=3), validator 1
-\* (power 3) Byzantine, rounds 0..2, two heights
+\* behaviour generation: n=7, validator 1 Byzantine; stakes <<3,2,2,1,1,1,1>> -> doubled -> all 1 over
+\* heights 1..3 (N = 11, 22, 7); rounds 0..2; the Byzantine validator is proposer of (1,1), (2,0)
 CONSTANTS
   NV = 7
-  Power <- MCPower7
+  PowerOf <- MCPowerOf
+  PowerTable <- Grow7
   MaxVal = 3
   NValid = 2
   MaxRound = 2
@@ -13,12 +14,12 @@ CONSTANTS
   Corr = {2, 3, 4, 5, 6, 7}
   Byz = {1}
   H0 = 1
-  MaxHeight = 2
-  MsgMaxHeight = 3
+  MaxHeight = 3
+  MsgMaxHeight = 4
   MaxRecv = 1000000
-  PropShift = 0
-  MaxSteps = 90
+  PropShift = 5
+  MaxSteps = 150
 INIT MBTInit
 NEXT MBTNext
-INVARIANTS Agreement Validity NoDoubleVote OneDecision LockRule VotesJustified
+INVARIANTS Agreement Validity NoDoubleVote OneDecision LockRule VotesJustified ThresholdsOK
 CHECK_DEADLOCK FALSE
